@@ -10,6 +10,23 @@ from typing import Any, Union, TypeVar, Type
 T = TypeVar("T")
 
 
+class OrderedSet(dict):
+    """A set which iterates in insertion order.
+    Used for the back-references from connectables to the ports they are connected to, which several
+    elaboration passes iterate over while re-making connections. With a built-in `set` (of objects hashed
+    by memory address and string) the order of those re-made connections, and hence of exported
+    connections and of generated names, varied from process to process."""
+
+    def add(self, item) -> None:
+        self[item] = None
+
+    def remove(self, item) -> None:
+        del self[item]
+
+    def discard(self, item) -> None:
+        self.pop(item, None)
+
+
 def connectable(cls: Type[T]) -> Type[T]:
     """Decorator for connectable types"""
     cls.__connectable__ = True
